@@ -472,8 +472,8 @@ theorem mv_step {cfg : Cfg} {s s' : State} {op : Op} (h : step cfg s op = some s
     cases hd : withdrawReq cfg s a u p pc e with
     | none => simp [hd] at h
     | some r => obtain ⟨s1, id⟩ := r; simp [hd] at h; subst h; exact mv_withdrawReq hd
-  | order a u p t b mo mp pr am l e => exact mv_placeOrder h
-  | mmOrder a u p bs ss l e => exact mv_mmOrder h
+  | order a u p t b od dd mo mp am l => obtain ⟨_, _, h⟩ := placeOrderMsg_core h; exact mv_placeOrder h
+  | mmOrder a u p xs ns sa xb nb ba l => obtain ⟨_, _, h⟩ := mmOrderMsg_core h; exact mv_mmOrder h
   | cancel a u p i => exact mv_cancelOrder h
   | cancelAll a u ps => exact mv_cancelAll h
   | cancelMM a u p => exact mv_cancelMM h
@@ -483,6 +483,12 @@ theorem mv_step {cfg : Cfg} {s s' : State} {op : Op} (h : step cfg s op = some s
   | unfarmAndWithdraw a u p n x y e => exact mv_unfarmAndWithdraw h
   | endBlock a ms ds ws => exact mv_endBlock h
   | beginBlock a => simp only [step, Option.some.injEq] at h; subst h; exact Moves.refl _
+  | migrate =>
+    simp only [step] at h
+    unfold migrate at h
+    split at h
+    · cases h; exact Moves.refl _
+    · cases h
 
 theorem mv_runT {cfg : Cfg} (ops : List Op) : ∀ s, Moves s.bank (runT cfg s ops).bank := by
   induction ops with
